@@ -440,7 +440,9 @@ func randomLayout(r *rand.Rand) *Layout {
 // expressible message descriptions: names the header lexer reads as one name token
 var smlNames = []string{"", "", "AreYouThere", "OnLineData", "ERN", "名前", "a.b", "x/y", "Lot#1", "né", "n_1", "q-1", "Z[0]", "a\"b", "\xff\xfe", "it's",
 	"Are\x00You", "esc\x1bname", "del\x7f", "c1\u009f", "zw\u200bsp", "bom\ufeff", "\x01\x02",
-	"Yield%", "100%Done", "50%%", "%d", "%s%v", "%!v(MISSING)", "a%[1]d", "\\n", "{0}"}
+	"Yield%", "100%Done", "50%%", "%d", "%s%v", "%!v(MISSING)", "a%[1]d", "\\n", "{0}",
+	// letters whose UTF-8 encoding contains the bytes 0x85 or 0xA0 (white space as Latin-1 runes)
+	"Voilà", "Ångström", "状態", "выход"}
 
 func genSMLMsg(r *rand.Rand, item *Node) *MsgDesc {
 	m := genMsgDesc(r, item, 0)
